@@ -12,6 +12,7 @@ import random
 from twisted.internet.error import ConnectionLost
 from twisted.python.failure import Failure
 
+from harness.ref_codec import Variant
 from harness import clientfix, ref_message as RM
 from harness.ref_codec import plain_eq
 from txdbus import error as E
@@ -124,14 +125,37 @@ def execute(ctx, calls, order, case):
     def inject(c, kind):
         rserial[0] += 1
         sig, build, conv = BODIES[c.body_kind]
+        # header layouts another implementation may legally produce: fields in any order, unknown field codes anywhere
+        layout = (rserial[0] * 7 + c.idx + len(calls)) % 6
+        extra = [(42, Variant('s', 'ignored')), (200, Variant('u', 7))][:layout % 3] if layout else []
+
+        def order_(fl, layout=layout):
+            known = [f for f in fl if f[0] not in (42, 200)]
+            unk = [f for f in fl if f[0] in (42, 200)]
+            if layout == 1:          # unknown field right after REPLY_SERIAL
+                out = []
+                for f in known:
+                    out.append(f)
+                    if f[0] == RM.FIELD_CODE['reply_serial']:
+                        out.extend(unk)
+                return out
+            if layout == 2:          # unknown fields first
+                return unk + known
+            if layout == 3:
+                return list(reversed(known))
+            if layout == 4:          # signature first, unknown in the middle
+                known.sort(key=lambda f: f[0] != RM.SIGNATURE)
+                return known[:1] + unk + known[1:]
+            return known + unk
+        ctx.count('reply_header_layout_%d' % layout)
         if kind == 'return':
             raw = RM.build(RM.METHOD_RETURN, rserial[0], {'reply_serial': c.serial, 'sender': ':1.7'}, sig,
-                           build(c.token), c.little)
+                           build(c.token), c.little, extra_fields=extra, field_order=order_)
         else:
             esig, ebody = error_body(c)
             raw = RM.build(RM.ERROR, rserial[0], {'reply_serial': c.serial, 'sender': ':1.7',
                                                   'error_name': 'org.verif.Err%d' % c.idx},
-                           esig, ebody, c.little)
+                           esig, ebody, c.little, extra_fields=extra, field_order=order_)
         peer.send(raw)
 
     now = [0.0]
@@ -308,6 +332,71 @@ def long_history(ctx):
     ctx.count('long_history_ok')
 
 
+def local_failures(ctx):
+    """Calls that cannot even be written (arguments not conforming to the signature, invalid names): the Deferred fails
+    once, nothing is written, and neither bookkeeping nor a timer stays behind - also when a deadline was asked for."""
+    peer = clientfix.Peer().ready()
+    conn = peer.proto
+    case = {'kind': 'local-failure'}
+    bad = [dict(objectPath='/obj', methodName='M', signature='i', body=['not-an-int']),
+           dict(objectPath='/obj', methodName='M', signature='as', body=[5]),
+           dict(objectPath='/obj', methodName='M', signature='ii', body=[1]),
+           dict(objectPath='no-slash', methodName='M'),
+           dict(objectPath='/obj', methodName='not a member'),
+           dict(objectPath='/obj', methodName='M', interface='nodots'),
+           dict(objectPath='/obj', methodName='M', destination='..bad'),
+           dict(objectPath='/obj', methodName='M', signature='(i', body=[1])]
+    good_before = clientfix.Outcome(conn.callRemote('/obj', 'Good', interface='org.verif.I', destination='org.verif.Peer',
+                                                    timeout=50.0))
+    sent = [m for m in peer.take() if m.fields.get('member') == 'Good']
+    for kw in bad:
+        for timeout in (None, 4.0):
+            ctx.count('evaluations')
+            kw2 = dict(kw)
+            path, member = kw2.pop('objectPath'), kw2.pop('methodName')
+            if timeout:
+                kw2['timeout'] = timeout
+            pend_before = dict(conn._pendingCalls)
+            timers_before = len(CLOCK.getDelayedCalls())
+            w = {'call': {k: repr(v) for k, v in kw.items()}, 'timeout': timeout}
+            try:
+                out = clientfix.Outcome(conn.callRemote(path, member, **kw2))
+            except Exception as e:
+                # raising at once is a completion too (the caller learns about it exactly once)
+                ctx.count('local_failures_raised')
+                out = None
+                w['raised'] = repr(e)
+            wrote = peer.take()
+            if out is not None and (out.fired != 1 or out.results[0][0] != 'err'):
+                w['results'] = [(k, repr(v)[:80]) for k, v in out.results]
+                ctx.report('local-failure-outcome', 'a call that cannot be encoded completed %d times: %r' % (
+                    out.fired, w['results']), w, case)
+                return
+            if wrote:
+                ctx.report('local-failure-written', 'a call that cannot be encoded still wrote %d message(s)' % len(wrote),
+                           w, case)
+                return
+            if dict(conn._pendingCalls) != pend_before or len(CLOCK.getDelayedCalls()) != timers_before:
+                ctx.report('local-failure-bookkeeping', 'a call that failed before it was sent left bookkeeping or a timer '
+                           'behind (pending %d -> %d, timers %d -> %d)' % (
+                               len(pend_before), len(conn._pendingCalls), timers_before, len(CLOCK.getDelayedCalls())),
+                           w, case)
+                return
+            ctx.count('local_failures_ok')
+    # the call made before is unaffected and still completes with its own reply
+    if sent:
+        peer.send(RM.build(RM.METHOD_RETURN, 77, {'reply_serial': sent[0].serial}, 's', ['fine']))
+    if good_before.results != [('ok', 'fine')]:
+        ctx.report('wrong-completion', 'a call outstanding while others failed locally completed with %r' % (
+            [(k, repr(v)[:60]) for k, v in good_before.results],), {}, case)
+    try:
+        CLOCK.advance(1000)
+    except Exception as e:
+        ctx.report('timer-callback-raised', 'a timer raised %r after local failures' % e, {}, case)
+    if good_before.fired != 1:
+        ctx.report('wrong-completion', 'call completed %d times' % good_before.fired, {}, case)
+
+
 def build_calls(rng, n, scripts=None, deadline_all=None):
     calls = []
     for i in range(n):
@@ -409,6 +498,7 @@ def run(ctx):
             break
     if si == 0:
         long_history(ctx)
+        local_failures(ctx)
     ctx.sample({'calls': [c.describe() for c in build_calls(random.Random(1), 2, [('R', 'D'), ('T', 'L')])],
                 'order': [[0, 'R'], [1, 'T'], ['U', 'E'], [0, 'D'], [1, 'L'], ['X', 'X']]})
     for k in ('first_return', 'first_error', 'first_timeout', 'first_loss'):
